@@ -317,6 +317,36 @@ static inline void gen_model(rng_t *r, const shape_t *s, size_t n, int want_empt
 			STAT("gen.boundary_length_key_pairs");
 		}
 	}
+	/* key pairs that stress the index separator (shortest key >= last key of a block and < first key of the next), placed so that a block
+	   boundary falls between them (the first key's value does not leave room for the second): a key and its extension, adjacent byte values,
+	   and the carry shapes  P a FF.. | P (a+1) 00..  of big-endian counters */
+	if (n >= 2 && s->block_size <= 8192 && rndp(r, 250)) {
+		int pairs = 1 + rndn(r, 6);
+		for (int q = 0; q < pairs; q++) {
+			uint8_t k1[24], k2[24]; size_t l1, l2, pl = rndn(r, 7);
+			for (size_t i = 0; i < pl; i++) k1[i] = rndp(r, 500) ? (uint8_t)('a' + rndn(r, 3)) : (uint8_t)rnd64(r);
+			uint8_t a = (uint8_t)rndn(r, 255);                    /* a + 1 does not wrap */
+			memcpy(k2, k1, pl);
+			int shape = rndn(r, 8);
+			switch (shape) {
+			case 0: k1[pl] = a; l1 = pl + 1; memcpy(k2, k1, l1); l2 = l1 + 1 + rndn(r, 3); for (size_t i = l1; i < l2; i++) k2[i] = (uint8_t)rnd64(r); break;   /* K | K x.. */
+			case 1: k1[pl] = a; l1 = pl + 1; memcpy(k2, k1, l1); k2[l1] = 0; l2 = l1 + 1; break;                                                     /* K | K 00 */
+			case 2: k1[pl] = a; k1[pl + 1] = 0xff; k1[pl + 2] = 0xff; l1 = pl + 3; k2[pl] = a + 1; k2[pl + 1] = 0; l2 = pl + 2; break;              /* P a FF FF | P a+1 00 */
+			case 3: k1[pl] = a; k1[pl + 1] = 0xff; l1 = pl + 2; k2[pl] = a + 1; l2 = pl + 1; break;                                                 /* P a FF | P a+1 */
+			case 4: k1[pl] = a; l1 = pl + 1; k2[pl] = a + 1; l2 = pl + 1; break;                                                                    /* P a | P a+1 */
+			case 5: k1[pl] = a; k1[pl + 1] = 0xff; k1[pl + 2] = 0xff; k1[pl + 3] = 0xff; l1 = pl + 4; k2[pl] = a + 1; k2[pl + 1] = 0; k2[pl + 2] = 0; l2 = pl + 3; break;
+			case 6: k1[pl] = a; k1[pl + 1] = 0; l1 = pl + 2; k2[pl] = a; k2[pl + 1] = 1; l2 = pl + 2; break;                                          /* P a 00 | P a 01 */
+			default: k1[pl] = a; k1[pl + 1] = 0xff; k1[pl + 2] = 'z'; k1[pl + 3] = 'z'; l1 = pl + 4; k2[pl] = a + 1; k2[pl + 1] = 0xff; k2[pl + 2] = 'z'; k2[pl + 3] = 'z'; l2 = pl + 4; break;  /* carry in the middle */
+			}
+			size_t lv1 = s->block_size + rndn(r, 32);
+			uint8_t *v1 = xmalloc(lv1), *v2; size_t lv2;
+			for (size_t i = 0; i < lv1; i++) v1[i] = (uint8_t)(i * 7 + q);
+			model_push(m, k1, l1, v1, lv1); free(v1);
+			gen_value(r, s, &v2, &lv2); model_push(m, k2, l2, v2, lv2); free(v2);
+			statf(1, "gen.separator_pair_at_block_boundary.shape%d", shape);
+		}
+		STAT("gen.models_with_separator_pairs");
+	}
 	model_sort(m);
 	model_dedupe(m);
 	/* the smallest entry the format can hold (empty key, empty value: three header bytes), in half of those also alone in its block
